@@ -309,10 +309,19 @@ func genScript(r *Run, c *muxCfg, g *muxGen) []*writeCall {
 		calls []*writeCall
 	}
 	var streams []*stream
-	// budget of calls per track proportional to its call rate
-	for _, ts := range c.tracks {
+	// the leading track gets its share of the call budget; the other tracks are generated until they
+	// span the same media time, so that no track ends long before the others
+	order := append([]*trackSpec(nil), c.tracks...)
+	for i, ts := range order {
+		if ts.leading {
+			order[0], order[i] = order[i], order[0]
+		}
+	}
+	spanEnd := 0.0
+	byTrack := map[*trackSpec]*stream{}
+	for _, ts := range order {
 		st := &stream{ts: ts}
-		streams = append(streams, st)
+		byTrack[ts] = st
 		n := nCalls / len(c.tracks)
 		if ts.leading {
 			n = nCalls - n*(len(c.tracks)-1)
@@ -328,14 +337,25 @@ func genScript(r *Run, c *muxCfg, g *muxGen) []*writeCall {
 		if t0 < -10.0 {
 			t0 = -10.0 // negative start timestamps down to -10 s
 		}
+		until := 0.0
+		if !ts.leading {
+			n, until = 20000, spanEnd
+		}
 		switch {
 		case ts.video:
 			genVideoCalls(T, g, c, ts, st.calls[:0], n, t0, &st.calls)
 		case ts.kind == "aac":
-			genAACCalls(T, g, c, ts, n, t0, &st.calls)
+			genAACCalls(T, g, c, ts, n, t0, until, &st.calls)
 		default:
-			genOpusCalls(T, g, c, ts, n, t0, &st.calls)
+			genOpusCalls(T, g, c, ts, n, t0, until, &st.calls)
 		}
+		if ts.leading && len(st.calls) > 0 {
+			last := st.calls[len(st.calls)-1]
+			spanEnd = float64(last.pts) / float64(ts.clock)
+		}
+	}
+	for _, ts := range c.tracks {
+		streams = append(streams, byTrack[ts])
 	}
 	// interleave
 	mode := T.Intn(4) // 0 time-ordered, 1 audio ahead, 2 video ahead, 3 random
@@ -551,7 +571,7 @@ func bigSize(T *Tape, c *muxCfg) int {
 	}
 }
 
-func genAACCalls(T *Tape, g *muxGen, c *muxCfg, ts *trackSpec, n int, t0 float64, out *[]*writeCall) {
+func genAACCalls(T *Tape, g *muxGen, c *muxCfg, ts *trackSpec, n int, t0 float64, until float64, out *[]*writeCall) {
 	pts := int64(t0 * float64(ts.clock))
 	gapMode := T.Intn(3) // 0 none, 1 small jitter, 2 occasional gaps
 	if g.constLeading && ts.leading {
@@ -562,6 +582,9 @@ func genAACCalls(T *Tape, g *muxGen, c *muxCfg, ts *trackSpec, n int, t0 float64
 		maxAUs = 1
 	}
 	for i := 0; i < n; i++ {
+		if until != 0 && float64(pts)/float64(ts.clock) >= until {
+			break
+		}
 		k := T.Range(1, maxAUs)
 		cl := &writeCall{track: ts, pts: pts}
 		for j := 0; j < k; j++ {
@@ -589,7 +612,7 @@ func genAACCalls(T *Tape, g *muxGen, c *muxCfg, ts *trackSpec, n int, t0 float64
 	}
 }
 
-func genOpusCalls(T *Tape, g *muxGen, c *muxCfg, ts *trackSpec, n int, t0 float64, out *[]*writeCall) {
+func genOpusCalls(T *Tape, g *muxGen, c *muxCfg, ts *trackSpec, n int, t0 float64, until float64, out *[]*writeCall) {
 	pts := int64(t0 * 48000)
 	cfgFixed := -1
 	if T.Chance(2, 3) || (g.constLeading && ts.leading) {
@@ -600,6 +623,9 @@ func genOpusCalls(T *Tape, g *muxGen, c *muxCfg, ts *trackSpec, n int, t0 float6
 		maxPk = 1
 	}
 	for i := 0; i < n; i++ {
+		if until != 0 && float64(pts)/48000 >= until {
+			break
+		}
 		k := T.Range(1, maxPk)
 		cl := &writeCall{track: ts, pts: pts}
 		p := pts
